@@ -462,8 +462,20 @@ func C30(run *Run) {
 			for _, id := range IDs[t][:2] {
 				for _, rel := range cs.Model.RelsOf(t) {
 					ev := &ExpandEv{Eng: "server", O: Obj{t, id}, R: rel}
-					if chance(r, 0.5) {
+					switch r.Intn(3) {
+					case 0:
 						ev.Ctxt = ctxt
+					case 1:
+						// contextual tuples that repeat stored ones, interleaved with new ones: the tree must
+						// still list every user / tupleset parent once
+						mix := append([]Tuple{}, ctxt...)
+						for _, t := range stored {
+							if len(mix) < 12 && chance(r, 0.5) && Writable(cs.Model, t) {
+								mix = append(mix, t)
+							}
+						}
+						r.Shuffle(len(mix), func(i, j int) { mix[i], mix[j] = mix[j], mix[i] })
+						ev.Ctxt = mix
 					}
 					v.Base.RunExpand(ctx, ev)
 					rec.Add(ev)
